@@ -1,6 +1,9 @@
 from props import P
 
 CFG = P(
+        variants={
+            "preempt": dict(pairs_text="14 JSON::parse calls (default and strict mode; accepted, rejected and extension-syntax texts), each observed through serialize(SORT_DICT_KEYS)", harness=["harness/C05_preempt.cc"], harness_deps_extra=["harness/preempt_pure.hh", "engine/preempt.hh"], src_cxxflags={"JSON.cc": ["-fsanitize-coverage=trace-pc"]}, first=True, tiers=["quick", "thorough"], no_tls=["JSON.cc"]),
+        },
         harness=["harness/C05.cc", "harness/C05_r2.cc", "harness/C05_r5.cc"], harness_deps=["harness/C05_common.hh", "harness/C04_jsonref.hh"],
         srcs=["JSON.cc", "Strings.cc", "Filesystem.cc", "Process.cc", "Time.cc", "Encoding.cc"],
         oracle="C05", flags=[],
